@@ -4,6 +4,7 @@ R15.1  detection: the keep-predicate of the iterator chain in get_specialized_me
        synthetic / bridge flag / potential bridge), "exactly one distinct callee", tuple roles up to the two result maps,
        is_potential_bridge (flag table, arity, position-wise compatibility, return table), are_types_bridge_compatible
        (monotone necessary conditions per pair of Type kinds), collected invocation kinds, index keys.
+R15.3  inheritance index: store records every edge in both directions, complete interface walk, closure functions.
 R15.2  who-may-write in add_specialized_methods_to_mappings: the clone of the input mappings is written only through
        classes.get_mut(bridge.class) -> methods.entry(key of the new info): Occupied -> `.info = info`, Vacant -> insert(new(info));
        the new MethodMapping is [specialized.name, named(bridge).name] / specialized.desc; namespaces and remappers.
@@ -39,8 +40,11 @@ CLAIM = {
          "-> methods.entry(info.get_key()?) with Occupied -> `e.get_mut().info = info` and Vacant -> `e.insert(MethodNowodeMapping::new(info))`, "
          "returns that clone, builds info as names [specialized.name, remapper_named.map_method_ref_obj(&bridge)?.name], desc "
          "specialized.desc, iterates bridge_to_specialized of the main jar's detection remapped with the calamus remapper, with namespaces "
-         "official->intermediary and intermediary->named; SpecializedMethods::remap maps key and value of both maps position-wise.",
- "note": "Not decided: correctness of the detection on real class hierarchies (get_ancestors / get_higher_method traversal, inheritance of "
+         "official->intermediary and intermediary->named; SpecializedMethods::remap maps key and value of both maps position-wise; "
+         "(R15.3) InheritanceIndex::store records both directions of the super-class edge (unless java/lang/Object) and of every interface edge "
+         "(complete, unconditional walk of `interfaces`, no return before it), the class visitor passes (name, super_class, interfaces) "
+         "position-wise, get_ancestors / get_descendants push every entry found under parents / children to the work list and to the result.",
+ "note": "Not decided: correctness of the detection on real class hierarchies (termination of the closure on cyclic input, get_higher_method, inheritance of "
          "names inside quill's BRemapper - C06), whether leniency for classes outside the jar should test the bridge or the specialized "
          "type (the rule accepts either), InvokeDynamic bodies. Trusted: rustc HIR/typeck/const-eval; spec/c15_bridge.json.",
  "technique": "static analysis: iterator-chain role propagation + truth-table equivalence (boolform) of the keep predicate, pattern-matrix "
@@ -56,6 +60,7 @@ def run(F, R, tier):
     duke = F.crate("duke")
     r15_1(c, duke, R, spec)
     r15_2(c, R, spec)
+    r15_3(c, R)
     return ("A5/A6 on get_specialized_methods (chain roles, keep-predicate truth table, one-callee guard), is_potential_bridge (flag rows, "
             "arity / position / return tables), are_types_bridge_compatible (100 kind pairs, monotone conditions), finish_method "
             "(157 instruction variants); A6 who-may-write on add_specialized_methods_to_mappings; oracle spec/c15_bridge.json")
@@ -1238,3 +1243,179 @@ def _remap_rules(c, R, rid):
                     ok = got == ["key", "value"]
         R.inst(rid, "remap:SpecializedMethods.%s" % f["name"], src_ok and ok, sp=f["e"]["sp"], got={"source": p, "pair": got},
                expect="self.%s mapped to (map_method_ref_obj(key), map_method_ref_obj(value))" % f["name"])
+
+
+# ------------------------------------------------------------------------------------ R15.3
+_DROPPERS = ("filter", "filter_map", "skip", "skip_while", "take", "take_while", "step_by", "nth", "last", "find", "find_map", "flat_map",
+             "dedup", "retain", "truncate", "drain", "pop", "remove", "swap_remove", "clear", "split_off")
+
+
+def _has_exit(n, kinds=("ret", "break", "continue")):
+    """exits of the enclosing loop / function inside `n` (inner loops and closures keep their own break/continue, a `ret` always counts)."""
+    out = []
+    stack = [(n, False)]
+    while stack:
+        x, inner = stack.pop()
+        if not isinstance(x, dict):
+            continue
+        k = x.get("k")
+        if k == "closure":
+            continue
+        if k == "ret" and "ret" in kinds:
+            out.append(x)
+        elif k in ("break", "continue") and k in kinds and not inner:
+            out.append(x)
+        sub_inner = inner or k in ("for", "loop", "while")
+        for ch in H.children(x):
+            stack.append((ch, sub_inner))
+    return out
+
+
+def r15_3(c, R):
+    from lib import c03_util as U3
+    rid = "R15.3"
+    R.rule(rid, "inheritance index (premise of the `inheritable and bridge-compatible` clause): InheritanceIndex::store records the edge in both "
+                "directions (parents[name] gets x, children[x] gets name) for the super class - unless it is java/lang/Object - and for EVERY "
+                "element of `interfaces`: the interface loop is unconditional, walks the whole parameter, has no continue/break and no return "
+                "precedes it; the class visitor hands (name, super_class, interfaces) to store position-wise; get_ancestors / get_descendants "
+                "push every node found under parents / children to both the work list and the result, and stop only when the work list is empty")
+    IDX = MOD + "::InheritanceIndex"
+    store = [b for b in c.bodies if b.get("name") == "store" and (b.get("impl_ty") or "") == IDX]
+    if R.anchor(rid, "fn InheritanceIndex::store", len(store) == 1):
+        b = store[0]
+        fn = U3.Fn(c, b)
+        names = [p.get("name") for p in b.get("params", [])]
+        R.anchor(rid, "store(&mut self, name, super_class, interfaces)", len(names) == 4, sp=b["sp"])
+
+        def src(e):
+            ch = fn.trace(e)
+            if ch.root[0] != "param":
+                return "?(%s)" % ch.show()[:50]
+            hops = [h for h in ch.hops if not (h[0] == "call" and h[1] in ("clone", "to_owned", "as_ref", "borrow", "into"))]
+            i = ch.root[1]
+            if i == 1 and not hops:
+                return "name"
+            if i == 2 and hops == [("some",)]:
+                return "super"
+            if i == 3 and hops == [("elem",)]:
+                return "iface"
+            return "?(%s)" % ch.show()[:50]
+        edges = {}
+        for n in H.walk(fn.root):
+            if n.get("k") == "mcall" and n["name"] in ("insert", "insert_full") and len(n["args"]) == 1:
+                ents = [x for x in H.walk(n["recv"]) if x.get("k") == "mcall" and x["name"] == "entry" and len(x["args"]) == 1]
+                if len(ents) != 1:
+                    continue
+                mp = fn.trace(ents[0]["recv"])
+                fld = [h for h in mp.hops if h[0] == "f"]
+                if mp.root[:2] != ("param", 0) or not fld:
+                    continue
+                conds = H.path_conditions(fn.root, n)
+                edges.setdefault((fld[-1][2], src(ents[0]["args"][0]), src(n["args"][0])), []).append((n, conds))
+        want = [("parents", "name", "super"), ("children", "super", "name"), ("parents", "name", "iface"), ("children", "iface", "name")]
+        for w in want:
+            got = edges.get(w)
+            R.inst(rid, "store:edge:%s[%s]+=%s" % w, bool(got), sp=(got[0][0].get("sp") if got else b["sp"]), expect="recorded",
+                   got="recorded" if got else sorted("%s[%s]+=%s" % k for k in edges))
+        extra = sorted("%s[%s]+=%s" % k for k in edges if k not in want)
+        R.inst(rid, "store:no-other-edge", not extra, sp=b["sp"], got=extra, nontrivial=False)
+        # conditions
+        for w in want:
+            for n, conds in edges.get(w, []):
+                if w[1] == "iface" or w[2] == "iface":
+                    R.inst(rid, "store:unconditional:%s[%s]+=%s" % w, not conds, sp=n.get("sp"), expect="every interface is recorded",
+                           got=[(k, H.render(cn)[:70], p) for k, cn, p in conds])
+                else:
+                    bad = []
+                    for k, cn, p in conds:
+                        r = H.render(cn)
+                        if k == "iflet" and p is True and "Some" in r:
+                            continue
+                        if k in ("if", "after-exit") and "JAVA_LANG_OBJECT" in r:
+                            continue
+                        bad.append((k, r[:70], p))
+                    R.inst(rid, "store:condition:%s[%s]+=%s" % w, not bad, sp=n.get("sp"),
+                           expect="only `super_class is Some` and `super_class != java/lang/Object`", got=bad)
+        loops = [n for n in H.walk(fn.root) if n.get("k") == "for" and fn.trace(n["iter"]).root[:2] == ("param", 3)]
+        if R.anchor(rid, "for interface in interfaces", len(loops) == 1, sp=b["sp"]):
+            lp = loops[0]
+            ch = fn.trace(lp["iter"])
+            drops = [h[1] for h in ch.hops if h[0] == "call" and h[1] in _DROPPERS]
+            muts = [n for n in H.walk(fn.root) if n.get("k") == "mcall" and n["name"] in _DROPPERS and H.local_of(n["recv"])
+                    and fn.trace(n["recv"]).root[:2] == ("param", 3)]
+            before = []
+            for n in H.walk(fn.root):
+                if n is lp:
+                    break
+                if n.get("k") == "ret":
+                    before.append(n)
+            inside = _has_exit(lp["body"])
+            R.inst(rid, "store:interfaces:complete-walk", not drops and not muts and not before and not inside and not H.path_conditions(fn.root, lp),
+                   sp=lp.get("sp"), expect="unconditional loop over all of `interfaces`, no return before it, no continue/break/return in it",
+                   got={"dropping": drops + [H.render(m)[:60] for m in muts], "return-before-loop": [n.get("sp") for n in before],
+                        "exits-in-loop": [H.render(x) for x in inside], "conditions": [(k, H.render(cn)[:60], p) for k, cn, p in H.path_conditions(fn.root, lp)]},
+                   detail="a class whose interface edges are missing is not recognised as a subtype of its interfaces: a synthetic, unflagged method "
+                          "narrowing such an interface is not treated as a bridge (seed C15-4)")
+    # the visitor hands the header over position-wise
+    callers = []
+    for b in c.bodies:
+        if not b["key"].startswith(MOD + "::"):
+            continue
+        for n in H.walk(b["body"]):
+            if n.get("k") == "mcall" and n["name"] == "store" and ((n.get("callee") or {}).get("impl_ty") or "").endswith("InheritanceIndex") \
+                    or n.get("k") == "mcall" and n["name"] == "store" and IDX in ((n.get("callee") or {}).get("full") or ""):
+                callers.append((b, n))
+    if R.anchor(rid, "call of InheritanceIndex::store in the class visitor", len(callers) >= 1):
+        for b, n in callers:
+            fn = U3.Fn(c, b)
+            pn = [p.get("name") for p in b.get("params", [])]
+            got = []
+            for a in n["args"]:
+                ch = fn.trace(a)
+                hops = [h for h in ch.hops if not (h[0] == "call" and h[1] in ("clone", "to_owned", "as_ref", "borrow", "into"))]
+                got.append(pn[ch.root[1]] if ch.root[0] == "param" and not hops and ch.root[1] < len(pn) else "?(%s)" % ch.show()[:40])
+            R.inst(rid, "visit_class:store(name, super_class, interfaces)", got == ["name", "super_class", "interfaces"], sp=n.get("sp"),
+                   expect=["name", "super_class", "interfaces"], got=got)
+    # closures
+    for fname, mapf in (("get_ancestors", "parents"), ("get_descendants", "children")):
+        bs = [b for b in c.bodies if b.get("name") == fname and (b.get("impl_ty") or "") == IDX]
+        if not R.anchor(rid, "fn InheritanceIndex::%s" % fname, len(bs) == 1):
+            continue
+        b = bs[0]
+        fn = U3.Fn(c, b)
+        pushes = [n for n in H.walk(fn.root) if n.get("k") == "mcall" and n["name"] in ("push", "push_back", "insert", "extend") and len(n["args"]) == 1]
+        pops = [n for n in H.walk(fn.root) if n.get("k") == "mcall" and n["name"] in ("pop", "pop_front", "pop_back")]
+        work = set(H.local_of(n["recv"])[0] for n in pops if H.local_of(n["recv"]))
+        tail = H.peel(fn.root)
+        while tail.get("k") == "block" and "tail" in tail:
+            tail = H.peel(tail["tail"])
+        res = H.local_of(tail)
+        tow, tor, other = [], [], []
+        for n in pushes:
+            loc = H.local_of(n["recv"])
+            ch = fn.trace(n["args"][0])
+            hops = [h for h in ch.hops if not (h[0] == "call" and h[1] in ("as_slice", "as_ref", "clone", "borrow", "iter", "into_iter"))]
+            from_map = ch.root[:2] == ("param", 0) and len(hops) >= 2 and hops[0][0] == "f" and hops[0][2] == mapf and \
+                hops[1][:2] == ("call", "get") and not [h for h in hops if h[0] == "call" and h[1] in _DROPPERS]
+            conds = [(k, H.render(cn)[:70], p) for k, cn, p in H.path_conditions(fn.root, n)
+                     if not (k == "iflet" and p is True and (".pop" in H.render(cn) or ".%s.get(" % mapf in H.render(cn)))]
+            rec = (from_map, conds, ch.show()[:80])
+            if loc and loc[0] in work:
+                tow.append(rec)
+            elif loc and res and loc[0] == res[0]:
+                tor.append(rec)
+            else:
+                other.append(rec)
+        okw = len(tow) == 1 and tow[0][0] and not tow[0][1]
+        okr = len(tor) == 1 and tor[0][0] and not tor[0][1]
+        R.inst(rid, "%s:every-%s-entry-continues-the-search" % (fname, mapf), okw, sp=b["sp"],
+               expect="work_list.push(x) for every x in self.%s.get(current), unconditionally" % mapf, got=tow)
+        R.inst(rid, "%s:every-%s-entry-is-returned" % (fname, mapf), okr, sp=b["sp"],
+               expect="result.push(x) for every x in self.%s.get(current), unconditionally" % mapf, got=tor)
+        lps = [n for n in H.walk(fn.root) if n.get("k") == "for"]
+        exits = []
+        for lp in lps:
+            exits += _has_exit(lp["body"])
+        R.inst(rid, "%s:no-early-exit" % fname, not exits and not [n for n in H.walk(fn.root) if n.get("k") == "ret"], sp=b["sp"],
+               got=[H.render(x) for x in exits], nontrivial=False)
+    R.floor(rid, 14)
